@@ -506,8 +506,66 @@ def _merge_nested_ifs(tree):
                 changed = True
 
 
+_OPERATOR = {"add": ast.Add, "sub": ast.Sub, "mul": ast.Mult, "truediv": ast.Div,
+             "floordiv": ast.FloorDiv, "mod": ast.Mod, "pow": ast.Pow,
+             "lshift": ast.LShift, "rshift": ast.RShift, "and_": ast.BitAnd,
+             "or_": ast.BitOr, "xor": ast.BitXor, "matmul": ast.MatMult}
+_OPERATOR_CMP = {"eq": ast.Eq, "ne": ast.NotEq, "lt": ast.Lt, "le": ast.LtE,
+                 "gt": ast.Gt, "ge": ast.GtE, "is_": ast.Is, "is_not": ast.IsNot}
+
+
+def _operator_module_calls(tree):
+    """`operator.add(a, b)` is `a + b`, `operator.lt(a, b)` is `a < b`, and
+    `x = operator.iadd(x, b)` is `x += b` (the library's own definition),
+    where `operator` is the standard module imported under that name and
+    never re-bound in the file."""
+    imported = any(isinstance(n, ast.Import) and any(
+        a.name == "operator" and a.asname in (None, "operator") for a in n.names)
+        for n in tree.body)
+    rebound = any(isinstance(n, ast.Name) and n.id == "operator" and
+                  isinstance(n.ctx, (ast.Store, ast.Del)) for n in ast.walk(tree)) or \
+        any(isinstance(n, ast.arg) and n.arg == "operator" for n in ast.walk(tree))
+    if not imported or rebound:
+        return
+
+    def opname(c):
+        if isinstance(c, ast.Call) and isinstance(c.func, ast.Attribute) and \
+                isinstance(c.func.value, ast.Name) and c.func.value.id == "operator" \
+                and len(c.args) == 2 and not c.keywords and \
+                not any(isinstance(a, ast.Starred) for a in c.args):
+            return c.func.attr
+        return None
+
+    class T(ast.NodeTransformer):
+        def visit_Assign(self, n):
+            self.generic_visit(n)
+            nm = opname(n.value)
+            if nm and nm.startswith("i") and nm[1:] in _OPERATOR and len(n.targets) == 1 \
+                    and isinstance(n.targets[0], (ast.Name, ast.Attribute, ast.Subscript)) \
+                    and ast.dump(n.targets[0]).replace("Store()", "Load()") == \
+                    ast.dump(n.value.args[0]):
+                new = ast.AugAssign(target=n.targets[0], op=_OPERATOR[nm[1:]](),
+                                    value=n.value.args[1])
+                return ast.copy_location(new, n)
+            return n
+
+        def visit_Call(self, n):
+            self.generic_visit(n)
+            nm = opname(n)
+            if nm in _OPERATOR:
+                return ast.copy_location(
+                    ast.BinOp(left=n.args[0], op=_OPERATOR[nm](), right=n.args[1]), n)
+            if nm in _OPERATOR_CMP:
+                return ast.copy_location(
+                    ast.Compare(left=n.args[0], ops=[_OPERATOR_CMP[nm]()],
+                                comparators=[n.args[1]]), n)
+            return n
+    T().visit(tree)
+
+
 def normalise(tree):
     _drop_pass(tree)
+    _operator_module_calls(tree)
     _expand_ifexp(tree)
     _merge_nested_ifs(tree)
     for fn in [n for n in ast.walk(tree)
